@@ -368,7 +368,8 @@ theorem prod_unit_left (B : LieModel ℝ) : LayoutIso (Bundle.prod Bundle.unit B
       congrArg B.d2r_exp (snd_reidx_zero hd.symm a)
     refine Eq.symm (e1.trans ?_)
     rw [e2, e3, e4]
-    simp
+    simp only [Scalar.nat_real, Nat.cast_zero, zero_add]
+    rfl
   · intro a
     apply Mat.ext'
     intro R C
@@ -386,7 +387,8 @@ theorem prod_unit_left (B : LieModel ℝ) : LayoutIso (Bundle.prod Bundle.unit B
       congrArg B.d2r_expinv (snd_reidx_zero hd.symm a)
     refine Eq.symm (e1.trans ?_)
     rw [e2, e3, e4]
-    simp
+    simp only [Scalar.nat_real, Nat.cast_zero, zero_add]
+    rfl
 
 /-! ### concatenation and flattening -/
 
